@@ -16,6 +16,7 @@ THEOREMS = [
     "toCalls_idempotent",
     "toCalls_frame",
 ]
+LEANCHECKER_MODULES = ["Fadl.Props.C17"]  # re-checked by leanchecker in the thorough tier
 RULE = (
     "seeded sort-directed queries (gen/expr.py) mixing method-form and function-form operator calls at "
     "all depths, with look-alike non-operator methods, keywords on non-operator methods and bare attribute "
